@@ -28,11 +28,6 @@ Fixpoint visit_g (ex : executor) (g : bool -> bool) (sc : script) (order : list 
       else visit_g ex g sc rest s1
   end.
 
-(* a STRONG list of the members (list(self._agents.keys()), iterating the dict itself, ...) keeps
-   every member alive until the call returns *)
-Definition hold (l : list Z) (s : st) : st := set_frames (map Some l ++ cur s) s.
-Definition release (n : nat) (s : st) : st := set_frames (skipn n (cur s)) s.
-
 Definition pick (f : act_fn) (is_str : bool) : act_loop :=
   if af_test f is_str then af_then f else af_else f.
 
